@@ -115,9 +115,7 @@ theorem tameRunP_sound (f : Nat) : ∀ (env : List Entry) (l out : List PTok), (
                               exact ⟨onlyDisabled_of_noNamesB env a this.1, this.2⟩
                             · intro i a a' ha ha'
                               exact ih env a a' hnd (hpt i a a' ha ha')
-                            · intro a' ha'
-                              rw [List.all_eq_true] at hod
-                              exact onlyDisabled_of_B env a' (hod a' ha')
+                            · exact argsOK_of_B env args args' hod
                             · exact ih (disable env mi) body' R (by rw [names_disable]; exact hnd) hR
                           · cases h
                         · cases h
